@@ -57,7 +57,7 @@ def check(prog, res, tier):
         out = set()
         for p in runs.inv:
             for e in p.events:
-                if e.kind == 'ext-call' and e.data['callee'] in ('struct.pack', 'struct.unpack') and fname in e.stack and e.data['args']:
+                if e.kind == 'ext-call' and e.data['callee'] in ('struct.pack', 'struct.unpack') and e.under(fname) and e.data['args']:
                     f0 = p.interp.py_key(p.interp.resolve(e.data['args'][0]))
                     out.add(f0 if isinstance(f0, str) else '<non-constant>')
         return out
@@ -230,7 +230,7 @@ def check(prog, res, tier):
     found = []
     for p in rr.runs('mciipm.VbsReader', False).inv:
         for e in p.events:
-            if e.kind == 'method' and e.data['name'] == 'get' and e.func == VNEXT and e.data['args'] and \
+            if e.kind == 'method' and e.data['name'] == 'get' and e.under(VNEXT) and e.data['args'] and \
                     p.interp.py_key(e.data['args'][0]) == 'MAX_VBS_RECORD_LENGTH':
                 d = p.interp.py_key(e.data['args'][1]) if len(e.data['args']) > 1 else None
                 found.append(d)
